@@ -36,13 +36,16 @@ structure Pool where
   names         : List String                 -- ghost: every group name ever returned
   orders        : List (List Nat)             -- cancel orders observed on the implementation (see DESIGN §3.5)
   ambiguous     : Bool                        -- behaviour depended on the iteration order of a Python set
+  lost          : Bool                        -- ghost: a task hit `KeyError` in its wrapper, or `flush`/`gather_and_close`
+                                              -- dropped a task from the registries that had not handed back its slot
 deriving Repr, Inhabited
 
 def Pool.init (size : Cap) (simple : Option SpawnSpec) : Pool :=
   { simple := simple, startCalls := 0,
     sem := { value := size, waiters := [] }, locked := false, closed := false, tasks := [], reqs := [],
     groups := [], running := [], cancelledR := [], ended := [], metaCancelled := [], apis := [],
-    gathers := [], closedWaiters := [], emit := [], log := [], names := [], orders := [], ambiguous := false }
+    gathers := [], closedWaiters := [], emit := [], log := [], names := [], orders := [], ambiguous := false,
+    lost := false }
 
 namespace Pool
 
@@ -78,6 +81,9 @@ def releaseMap (p : Pool) (m : Nat) : Pool :=
   | some r =>
     let s := r.mapSem.release
     (p.modReq m fun x => { x with mapSem := s.1 }).schedOpt s.2
+
+/-- task `t` has not handed back its slot -/
+def heldB (p : Pool) (t : Nat) : Bool := match p.tasks[t]? with | some tk => !tk.released | none => false
 
 def counters (p : Pool) : Nat × Nat × Nat := (p.running.length, p.cancelledR.length, p.ended.length)
 
@@ -353,7 +359,7 @@ def endingTail (p : Pool) (t : Nat) (tk : PTask) : Pool :=
   ((p.releasePool).modTask t fun k => { k with released := true }).endCallback t tk
 
 def keyErrorFinish (p : Pool) (t : Nat) : Pool :=
-  (p.modTask t fun k => { k with pendingExc := some .keyError }).finishTask t
+  (({ p with lost := true } : Pool).modTask t fun k => { k with pendingExc := some .keyError }).finishTask t
 
 /-- `_task_ending` (from the wrapper's `finally`) -/
 def taskEnding (p : Pool) (t : Nat) : Pool :=
@@ -374,7 +380,7 @@ def taskCancellation (p : Pool) (t : Nat) (tk : PTask) : Pool :=
   if p.running.contains t then
     ({ p with running := p.running.erase t, cancelledR := p.cancelledR ++ [t] } : Pool).cancelCallback t tk
   else
-    (p.modTask t fun k => { k with pendingExc := some .keyError }).taskEnding t
+    (({ p with lost := true } : Pool).modTask t fun k => { k with pendingExc := some .keyError }).taskEnding t
 
 /-- the awaited coroutine finished (normally or with `e`) without cancellation -/
 def afterWorker (p : Pool) (t : Nat) (e : Option Err) : Pool :=
@@ -384,9 +390,7 @@ def afterWorker (p : Pool) (t : Nat) (e : Option Err) : Pool :=
 
 /-- first step of the wrapper: the worker body starts, unless the task was cancelled through the pool before -/
 def stepCreated (p : Pool) (t : Nat) (tk : PTask) : Pool :=
-  if tk.mustCancel then
-    p.completeTask t .cancelled      -- `Task.cancel()` behind the pool's back: the wrapper body never runs
-  else if tk.cancelledEarly then
+  if tk.cancelledEarly then
     -- the coroutine is closed unstarted, `CancelledError` is raised inside the wrapper's own `try`
     (p.modTask t fun k => { k with phase := .wrapUp, unstarted := false, cancelledEarly := false }).taskCancellation t tk
   else
@@ -657,7 +661,8 @@ def flushAfter2 (p : Pool) (a : Nat) (o : Outcome) : Pool :=
   | .ok =>
     let A := p.apis[a]?.getD default
     ({ p with ended := p.ended.filter (fun t => !(A.snapE.contains t || A.snapC.contains t)),
-              cancelledR := p.cancelledR.filter (fun t => !A.snapC.contains t) } : Pool).finishApi a .ok
+              cancelledR := p.cancelledR.filter (fun t => !A.snapC.contains t),
+              lost := p.lost || p.cancelledR.any (fun t => A.snapC.contains t && p.heldB t) } : Pool).finishApi a .ok
   | o => p.finishApi a o
 
 def flushAfter1 (p : Pool) (a : Nat) (re : Bool) (o : Outcome) : Pool :=
@@ -684,7 +689,8 @@ def gacAfter2 (p : Pool) (a : Nat) (o : Outcome) : Pool :=
   match o with
   | .ok =>
     let ws := p.closedWaiters
-    let p : Pool := { p with ended := [], cancelledR := [], running := [], closed := true, closedWaiters := [] }
+    let p : Pool := { p with ended := [], cancelledR := [], running := [], closed := true, closedWaiters := [],
+                             lost := p.lost || (p.running ++ p.cancelledR).any p.heldB }
     (ws.foldl (fun p w => p.schedApi w) p).finishApi a .ok
   | o => p.finishApi a o
 
